@@ -152,6 +152,24 @@ Proof.
   apply andb_prop in H. destruct H as [Hc Hs]. apply negb_true_iff in Hc. rewrite Hc. rewrite (IH Hs). reflexivity.
 Qed.
 
+Lemma scan_bal_app e : forall d d' rest,
+  bal d e = Some d' ->
+  scan_bal d (e ++ rest) = match scan_bal d' rest with Some (x, r) => Some (e ++ x, r) | None => None end.
+Proof.
+  induction e as [|c e IH]; intros d d' rest H; cbn [bal app] in *.
+  - injection H as <-. destruct (scan_bal d rest) as [[x r]|]; reflexivity.
+  - cbn [scan_bal]. destruct (c =? 41).
+    + destruct d as [|d0]; [discriminate|]. rewrite (IH d0 d' rest H).
+      destruct (scan_bal d' rest) as [[x r]|]; reflexivity.
+    + destruct (c =? 40); rewrite (IH _ d' rest H); destruct (scan_bal d' rest) as [[x r]|]; reflexivity.
+Qed.
+
+Lemma scan_bal_ok e rest : wf_expr e = true -> scan_bal 0 (e ++ 41 :: rest) = Some (e, rest).
+Proof.
+  unfold wf_expr. intro H. destruct (bal 0 e) as [[|n]|] eqn:E; try discriminate.
+  rewrite (scan_bal_app e 0 0 (41 :: rest) E). cbn. rewrite app_nil_r. reflexivity.
+Qed.
+
 Lemma esc_lit_id s : no_quote_bs s = true -> esc_lit s = s.
 Proof.
   intro H. rewrite esc_lit_flat. unfold no_quote_bs in H. induction s as [|c s IH]; [reflexivity|].
@@ -444,14 +462,18 @@ Lemma print_def_quoted t s :
   wf_def t (DQuoted s) = true -> print_def t (DQuoted s) = quote_with esc_lit s.
 Proof.
   cbn [wf_def print_def]. intro H. apply andb_prop in H. destruct H as [H1 H2].
+  apply andb_prop in H1. destruct H1 as [H1 _].
   assert (E : (if lit_is_escaped t then quote_with esc_lit s else quote_with (fun x => x) s) = quote_with esc_lit s).
   { destruct (lit_is_escaped t); [reflexivity|]. cbn in H2. unfold quote_with. rewrite (esc_lit_id s H2). reflexivity. }
   destruct t; try exact E; discriminate.
 Qed.
 
+Lemma hd3_nothex rest : hd_in [32; 44; 10] rest -> hdnot hexch rest.
+Proof. destruct rest as [|c r]; [exact (fun _ => I)|]. cbn. intros [<-|[<-|[<-|[]]]]; reflexivity. Qed.
+
 Lemma p_def_ok t d X : wf_def t d = true -> hd_in [32; 44; 10] X -> p_def (print_def t d ++ X) = Some (d, X).
 Proof.
-  intros Hwf HX. destruct d as [|s|p].
+  intros Hwf HX. destruct d as [|s|p|e|b|h].
   - unfold p_def. cbn [print_def]. rewrite strip_app. reflexivity.
   - rewrite (print_def_quoted t s Hwf). unfold p_def.
     change (strip kw_null (quote_with esc_lit s ++ X)) with (@None str).
@@ -460,27 +482,52 @@ Proof.
   - unfold p_def. cbn [print_def].
     assert (E : strip kw_null (print_now p ++ X) = None) by (unfold print_now; rewrite <- app_assoc; reflexivity).
     rewrite E. cbn [wf_def] in Hwf. rewrite (p_now_ok p X Hwf (hd3_strip40 X HX)). reflexivity.
+  - unfold p_def. cbn [print_def wf_def] in *. unfold paren. cbn [app]. rewrite <- app_assoc. cbn [app].
+    change (strip kw_null (40 :: ?x)) with (@None str).
+    change (p_now (40 :: ?x)) with (@None (N * str)).
+    change (p_qstr (Some unesc_lit) (40 :: ?x)) with (@None (str * str)).
+    cbv beta iota. cbn [strip]. rewrite N.eqb_refl. rewrite (scan_bal_ok e X Hwf). reflexivity.
+  - unfold p_def. cbn [print_def wf_def] in *. apply andb_prop in Hwf. destruct Hwf as [_ Hb].
+    rewrite <- !app_assoc.
+    change (strip kw_null (kw_bit ++ ?x)) with (@None str).
+    change (p_now (kw_bit ++ ?x)) with (@None (N * str)).
+    change (p_qstr (Some unesc_lit) (kw_bit ++ ?x)) with (@None (str * str)).
+    change (strip [40] (kw_bit ++ ?x)) with (@None str).
+    cbv beta iota. rewrite strip_app. rewrite (span_app bitch b _ Hb); [|reflexivity].
+    cbn [app strip]. rewrite N.eqb_refl. reflexivity.
+  - unfold p_def. cbn [print_def wf_def] in *. rewrite <- !app_assoc.
+    change (strip kw_null (kw_hex ++ ?x)) with (@None str).
+    change (p_now (kw_hex ++ ?x)) with (@None (N * str)).
+    change (p_qstr (Some unesc_lit) (kw_hex ++ ?x)) with (@None (str * str)).
+    change (strip [40] (kw_hex ++ ?x)) with (@None str).
+    change (strip kw_bit (kw_hex ++ ?x)) with (@None str).
+    cbv beta iota. rewrite strip_app. rewrite (span_app hexch h X Hwf (hd3_nothex X HX)). reflexivity.
 Qed.
 
 (* ---------- columns ---------- *)
 
 Definition seg_nn (c : column) : str := if cnull c then [] else kw_notnull.
 Definition seg_ai (c : column) : str := if cauto c then kw_autoinc else [].
-Definition seg_def (c : column) : str := match cdef c with None => [] | Some d => kw_default ++ print_def (cty c) d end.
+Definition seg_gen (c : column) : str :=
+  match cgen c with None => [] | Some (e, st) => kw_generated ++ e ++ [41] ++ (if st then kw_stored else []) end.
+Definition seg_def (c : column) : str :=
+  match cgen c, cdef c with None, Some d => kw_default ++ print_def (cty c) d | _, _ => [] end.
 Definition seg_upd (c : column) : str := match conupd c with None => [] | Some p => kw_onupdate ++ print_now p end.
 Definition seg_cm (c : column) : str := match ccomment c with [] => [] | cm => kw_comment ++ esc_comment cm ++ [39] end.
 
 Lemma print_col_segs tc c :
   print_col tc c = [32; 32] ++ quote_id (cname c) ++ [32] ++ print_type tc (cty c) ++
-                   seg_nn c ++ seg_ai c ++ seg_def c ++ seg_upd c ++ seg_cm c.
-Proof. reflexivity. Qed.
+                   seg_nn c ++ seg_ai c ++ seg_gen c ++ seg_def c ++ seg_upd c ++ seg_cm c.
+Proof. unfold print_col, seg_gen, seg_def. destruct (cgen c) as [[e st]|]; reflexivity. Qed.
 
 Lemma seg_nn_form c : seg_nn c = [] \/ exists r, seg_nn c = kw_notnull ++ r.
 Proof. unfold seg_nn. destruct (cnull c); [left; reflexivity|right; exists []; rewrite app_nil_r; reflexivity]. Qed.
 Lemma seg_ai_form c : seg_ai c = [] \/ exists r, seg_ai c = kw_autoinc ++ r.
 Proof. unfold seg_ai. destruct (cauto c); [right; exists []; rewrite app_nil_r; reflexivity|left; reflexivity]. Qed.
+Lemma seg_gen_form c : seg_gen c = [] \/ exists r, seg_gen c = kw_generated ++ r.
+Proof. unfold seg_gen. destruct (cgen c) as [[e st]|]; [right; eexists; reflexivity|left; reflexivity]. Qed.
 Lemma seg_def_form c : seg_def c = [] \/ exists r, seg_def c = kw_default ++ r.
-Proof. unfold seg_def. destruct (cdef c); [right; eexists; reflexivity|left; reflexivity]. Qed.
+Proof. unfold seg_def. destruct (cgen c); destruct (cdef c); try (left; reflexivity); right; eexists; reflexivity. Qed.
 Lemma seg_upd_form c : seg_upd c = [] \/ exists r, seg_upd c = kw_onupdate ++ r.
 Proof. unfold seg_upd. destruct (conupd c); [right; eexists; reflexivity|left; reflexivity]. Qed.
 Lemma seg_cm_form c : seg_cm c = [] \/ exists r, seg_cm c = kw_comment ++ r.
@@ -497,18 +544,21 @@ Ltac all32 := repeat (apply Forall_cons; [eexists; reflexivity|]); apply Forall_
 Lemma p_col_ok tc c rest :
   wf_col tc c = true -> hd_in [44; 10] rest ->
   p_col (quote_id (cname c) ++ [32] ++ print_type tc (cty c) ++
-         seg_nn c ++ seg_ai c ++ seg_def c ++ seg_upd c ++ seg_cm c ++ rest) = Some (c, rest).
+         seg_nn c ++ seg_ai c ++ seg_gen c ++ seg_def c ++ seg_upd c ++ seg_cm c ++ rest) = Some (c, rest).
 Proof.
   intros Hwf Hr. unfold wf_col in Hwf. apply andb_prop in Hwf. destruct Hwf as [Hwf Hwu].
+  apply andb_prop in Hwf. destruct Hwf as [Hwf Hwg].
   apply andb_prop in Hwf. destruct Hwf as [Hwt Hwd].
   assert (S6 : shape [] rest) by (apply sh_tail; exact Hr).
   pose proof (shape_seg kw_comment _ _ _ (seg_cm_form c) S6) as S5.
   pose proof (shape_seg kw_onupdate _ _ _ (seg_upd_form c) S5) as S4.
   pose proof (shape_seg kw_default _ _ _ (seg_def_form c) S4) as S3.
-  pose proof (shape_seg kw_autoinc _ _ _ (seg_ai_form c) S3) as S2.
+  pose proof (shape_seg kw_generated _ _ _ (seg_gen_form c) S3) as S3g.
+  pose proof (shape_seg kw_autoinc _ _ _ (seg_ai_form c) S3g) as S2.
   pose proof (shape_seg kw_notnull _ _ _ (seg_nn_form c) S2) as S1.
   set (X5 := seg_cm c ++ rest) in *. set (X4 := seg_upd c ++ X5) in *. set (X3 := seg_def c ++ X4) in *.
-  set (X2 := seg_ai c ++ X3) in *. set (X1 := seg_nn c ++ X2) in *.
+  set (X3g := seg_gen c ++ X3) in *.
+  set (X2 := seg_ai c ++ X3g) in *. set (X1 := seg_nn c ++ X2) in *.
   assert (H1 : hd_in [32; 44; 10] X1) by (eapply shape_hd; [|exact S1]; all32).
   assert (H4 : hd_in [32; 44; 10] X4) by (eapply shape_hd; [|exact S4]; all32).
   assert (H5 : hd_in [32; 44; 10] X5) by (eapply shape_hd; [|exact S5]; all32).
@@ -521,13 +571,24 @@ Proof.
     - cbn [app]. strip_none S2. reflexivity.
     - rewrite strip_app. reflexivity. }
   rewrite E1. cbv beta iota zeta.
-  assert (E2 : p_flag kw_autoinc X2 = (cauto c, X3)).
+  assert (E2 : p_flag kw_autoinc X2 = (cauto c, X3g)).
   { unfold p_flag, X2, seg_ai. destruct (cauto c).
     - rewrite strip_app. reflexivity.
-    - cbn [app]. strip_none S3. reflexivity. }
+    - cbn [app]. strip_none S3g. reflexivity. }
   rewrite E2. cbv beta iota zeta.
+  assert (E2g : p_optgen X3g = Some (cgen c, X3)).
+  { unfold p_optgen, X3g, seg_gen. destruct (cgen c) as [[e st]|].
+    - apply andb_prop in Hwg. destruct Hwg as [Hwe _].
+      rewrite <- !app_assoc. rewrite strip_app. cbn [app]. rewrite (scan_bal_ok e _ Hwe).
+      unfold p_flag. destruct st.
+      + rewrite strip_app. reflexivity.
+      + cbn [app]. strip_none S3. reflexivity.
+    - cbn [app]. strip_none S3. reflexivity. }
+  rewrite E2g.
   assert (E3 : p_optdef X3 = Some (cdef c, X4)).
-  { unfold p_optdef, X3, seg_def. destruct (cdef c) as [d|].
+  { unfold p_optdef, X3, seg_def. destruct (cgen c) as [[e st]|]; destruct (cdef c) as [d|].
+    - apply andb_prop in Hwg. destruct Hwg as [_ Hf]. discriminate.
+    - cbn [app]. strip_none S4. reflexivity.
     - rewrite <- app_assoc. rewrite strip_app. rewrite (p_def_ok (cty c) d X4 Hwd H4). reflexivity.
     - cbn [app]. strip_none S4. reflexivity. }
   rewrite E3.
@@ -655,12 +716,29 @@ Definition wf_item (tc : coll) (it : item) : Prop :=
   | IPk cols => cols <> []
   | IIdx i => wf_idx i = true
   | IFk f => wf_fk f = true
+  | ICheck k => wf_check k = true
   end.
+
+Lemma p_check_ok k rest :
+  wf_check k = true -> hd_in [44; 10] rest ->
+  p_check (quote_id (kname k) ++ kw_check ++ kexpr k ++ [41] ++ (if kenforced k then [] else kw_notenforced) ++ rest)
+  = Some (k, rest).
+Proof.
+  intros Hwf Hr. unfold p_check. rewrite p_qid_ok; [|reflexivity]. rewrite strip_app. cbn [app].
+  rewrite (scan_bal_ok (kexpr k) _ Hwf). unfold p_flag. destruct k as [name e enf]. cbn [kenforced kname kexpr].
+  destruct enf.
+  - cbn [app]. unfold kw_notenforced. rewrite (hd_in_strip_gen [44; 10] 32 _ rest Hr); [reflexivity|].
+    intros [H|[H|[]]]; discriminate.
+  - rewrite strip_app. reflexivity.
+Qed.
+
+Lemma p_fk_not_check name x : p_fk (quote_id name ++ kw_check ++ x) = None.
+Proof. unfold p_fk. rewrite p_qid_ok; [|reflexivity]. reflexivity. Qed.
 
 Lemma p_item_ok tc it rest :
   wf_item tc it -> hd_in [44; 10] rest -> p_item (print_item tc it ++ rest) = Some (it, rest).
 Proof.
-  intros Hwf Hr. unfold p_item. destruct it as [c|cols|i|f]; cbn [print_item wf_item] in *.
+  intros Hwf Hr. unfold p_item. destruct it as [c|cols|i|f|k]; cbn [print_item wf_item] in *.
   - rewrite print_col_segs. rewrite <- !app_assoc. rewrite strip_app.
     match goal with |- context [strip [96] (quote_id ?s ++ ?x)] =>
       change (strip [96] (quote_id s ++ x)) with (Some ((replace1 96 [96; 96] s ++ [96]) ++ x)) end.
@@ -692,74 +770,86 @@ Proof.
       change (strip kw_unique (kw_constraint ++ ?x)) with (@None str); cbv beta iota;
       change (strip kw_key (kw_constraint ++ ?x)) with (@None str); cbv beta iota;
       rewrite strip_app; rewrite E; reflexivity.
+  - unfold print_check. rewrite <- !app_assoc. rewrite strip_app.
+    change (strip [96] (kw_constraint ++ ?x)) with (@None str); cbv beta iota.
+    change (strip kw_pk (kw_constraint ++ ?x)) with (@None str); cbv beta iota.
+    change (strip kw_unique (kw_constraint ++ ?x)) with (@None str); cbv beta iota.
+    change (strip kw_key (kw_constraint ++ ?x)) with (@None str); cbv beta iota.
+    rewrite strip_app. rewrite p_fk_not_check. rewrite (p_check_ok k rest Hwf Hr). reflexivity.
 Qed.
 
 (* ---------- the whole statement ---------- *)
 
+Lemma fm_nil {A B C} (f : B -> list C) (g : A -> B) l : (forall x, f (g x) = []) -> flat_map f (map g l) = [].
+Proof. intro H. induction l as [|x l IH]; cbn; [reflexivity|]. rewrite H. exact IH. Qed.
+
+Lemma fm_id {A B} (f : B -> list A) (g : A -> B) l : (forall x, f (g x) = [x]) -> flat_map f (map g l) = l.
+Proof. intro H. induction l as [|x l IH]; cbn; [reflexivity|]. rewrite H, IH. reflexivity. Qed.
+
 Lemma cols_of_items t : cols_of (items_of t) = tcols t.
 Proof.
   unfold cols_of, items_of. rewrite !flat_map_app.
-  assert (A : flat_map (fun it => match it with ICol c => [c] | _ => [] end) (map ICol (tcols t)) = tcols t).
-  { induction (tcols t) as [|c l IH]; [reflexivity|]. cbn. rewrite IH. reflexivity. }
-  assert (B : forall l, flat_map (fun it => match it with ICol c => [c] | _ => [] end) (map IIdx l) = []).
-  { induction l as [|c l IH]; [reflexivity|]. cbn. exact IH. }
-  assert (C : forall l, flat_map (fun it => match it with ICol c => [c] | _ => [] end) (map IFk l) = []).
-  { induction l as [|c l IH]; [reflexivity|]. cbn. exact IH. }
-  rewrite A, B, C. destruct (tpk t); cbn; rewrite app_nil_r; reflexivity.
+  rewrite (fm_id _ ICol) by reflexivity. rewrite (fm_nil _ IIdx), (fm_nil _ IFk), (fm_nil _ ICheck) by reflexivity.
+  destruct (tpk t); cbn; rewrite ?app_nil_r; reflexivity.
 Qed.
 
 Lemma pk_of_items t : pk_of (items_of t) = tpk t.
 Proof.
   unfold pk_of, items_of. rewrite !flat_map_app.
-  assert (A : forall l, flat_map (fun it => match it with IPk p => p | _ => [] end) (map ICol l) = []).
-  { induction l as [|c l IH]; [reflexivity|]. cbn. exact IH. }
-  assert (B : forall l, flat_map (fun it => match it with IPk p => p | _ => [] end) (map IIdx l) = []).
-  { induction l as [|c l IH]; [reflexivity|]. cbn. exact IH. }
-  assert (C : forall l, flat_map (fun it => match it with IPk p => p | _ => [] end) (map IFk l) = []).
-  { induction l as [|c l IH]; [reflexivity|]. cbn. exact IH. }
-  rewrite A, B, C. destruct (tpk t); cbn; rewrite ?app_nil_r; reflexivity.
+  rewrite (fm_nil _ ICol), (fm_nil _ IIdx), (fm_nil _ IFk), (fm_nil _ ICheck) by reflexivity.
+  destruct (tpk t); cbn; rewrite ?app_nil_r; reflexivity.
 Qed.
 
 Lemma idx_of_items t : idx_of (items_of t) = tidx t.
 Proof.
   unfold idx_of, items_of. rewrite !flat_map_app.
-  assert (A : forall l, flat_map (fun it => match it with IIdx p => [p] | _ => [] end) (map ICol l) = []).
-  { induction l as [|c l IH]; [reflexivity|]. cbn. exact IH. }
-  assert (B : flat_map (fun it => match it with IIdx p => [p] | _ => [] end) (map IIdx (tidx t)) = tidx t).
-  { induction (tidx t) as [|c l IH]; [reflexivity|]. cbn. rewrite IH. reflexivity. }
-  assert (C : forall l, flat_map (fun it => match it with IIdx p => [p] | _ => [] end) (map IFk l) = []).
-  { induction l as [|c l IH]; [reflexivity|]. cbn. exact IH. }
-  rewrite A, B, C. destruct (tpk t); cbn; rewrite ?app_nil_r; reflexivity.
+  rewrite (fm_id _ IIdx) by reflexivity. rewrite (fm_nil _ ICol), (fm_nil _ IFk), (fm_nil _ ICheck) by reflexivity.
+  destruct (tpk t); cbn; rewrite ?app_nil_r; reflexivity.
 Qed.
 
 Lemma fks_of_items t : fks_of (items_of t) = tfks t.
 Proof.
   unfold fks_of, items_of. rewrite !flat_map_app.
-  assert (A : forall l, flat_map (fun it => match it with IFk p => [p] | _ => [] end) (map ICol l) = []).
-  { induction l as [|c l IH]; [reflexivity|]. cbn. exact IH. }
-  assert (B : forall l, flat_map (fun it => match it with IFk p => [p] | _ => [] end) (map IIdx l) = []).
-  { induction l as [|c l IH]; [reflexivity|]. cbn. exact IH. }
-  assert (C : flat_map (fun it => match it with IFk p => [p] | _ => [] end) (map IFk (tfks t)) = tfks t).
-  { induction (tfks t) as [|c l IH]; [reflexivity|]. cbn. rewrite IH. reflexivity. }
-  rewrite A, B, C. destruct (tpk t); cbn; reflexivity.
+  rewrite (fm_id _ IFk) by reflexivity. rewrite (fm_nil _ ICol), (fm_nil _ IIdx), (fm_nil _ ICheck) by reflexivity.
+  destruct (tpk t); cbn; rewrite ?app_nil_r; reflexivity.
+Qed.
+
+Lemma checks_of_items t : checks_of (items_of t) = shown_checks t.
+Proof.
+  unfold checks_of, items_of. rewrite !flat_map_app.
+  rewrite (fm_id _ ICheck) by reflexivity. rewrite (fm_nil _ ICol), (fm_nil _ IIdx), (fm_nil _ IFk) by reflexivity.
+  destruct (tpk t); cbn; reflexivity.
+Qed.
+
+Lemma shown_checks_wf t : wf_table t = true -> shown_checks t = tchecks t.
+Proof.
+  unfold wf_table, shown_checks. intro H. apply andb_prop in H. destruct H as [H _].
+  apply andb_prop in H. destruct H as [_ H]. destruct (existsb is_virtual (tcols t)); [|reflexivity].
+  cbn in H. destruct (tchecks t); [reflexivity|discriminate].
 Qed.
 
 Lemma items_wf t : wf_table t = true -> Forall (wf_item (tcoll t)) (items_of t) /\ items_of t <> [].
 Proof.
-  unfold wf_table. intro H. apply andb_prop in H. destruct H as [H Hai].
+  intro Hwf. pose proof (shown_checks_wf t Hwf) as Hsc. unfold wf_table in Hwf.
+  apply andb_prop in Hwf. destruct Hwf as [H Hai]. apply andb_prop in H. destruct H as [H _].
+  apply andb_prop in H. destruct H as [H Hck].
   apply andb_prop in H. destruct H as [H Hfk]. apply andb_prop in H. destruct H as [H Hix].
   apply andb_prop in H. destruct H as [Hne Hcols].
-  rewrite forallb_forall in Hcols, Hix, Hfk. split.
-  - unfold items_of. rewrite !Forall_app. repeat split.
+  rewrite forallb_forall in Hcols, Hix, Hfk, Hck. split.
+  - unfold items_of. rewrite Hsc. rewrite !Forall_app. repeat split.
     + apply Forall_forall. intros it Hin. apply in_map_iff in Hin. destruct Hin as [c [<- Hc]]. exact (Hcols c Hc).
     + destruct (tpk t) eqn:E; [apply Forall_nil|]. apply Forall_cons; [cbn; discriminate|apply Forall_nil].
     + apply Forall_forall. intros it Hin. apply in_map_iff in Hin. destruct Hin as [c [<- Hc]]. exact (Hix c Hc).
     + apply Forall_forall. intros it Hin. apply in_map_iff in Hin. destruct Hin as [c [<- Hc]]. exact (Hfk c Hc).
+    + apply Forall_forall. intros it Hin. apply in_map_iff in Hin. destruct Hin as [c [<- Hc]]. exact (Hck c Hc).
   - unfold items_of. destruct (tcols t); [discriminate|]. cbn. discriminate.
 Qed.
 
 Definition seg_tai (t : table) : str := match tautoinc t with None => [] | Some n => kw_tautoinc ++ n end.
 Definition seg_tcm (t : table) : str := match tcomment t with [] => [] | cm => kw_tcomment ++ esc_comment cm ++ [39] end.
+
+Lemma p_flag_if (b : bool) kw X : strip kw X = None -> p_flag kw ((if b then kw else []) ++ X) = (b, X).
+Proof. intro H. unfold p_flag. destruct b; [rewrite strip_app; reflexivity|cbn [app]; rewrite H; reflexivity]. Qed.
 
 Theorem parse_print t : wf_table t = true -> parse_table (print_table t) = Some t.
 Proof.
@@ -768,11 +858,14 @@ Proof.
   { unfold wf_table in Hwf. apply andb_prop in Hwf. destruct Hwf as [_ H]. exact H. }
   pose proof (cols_of_items t) as Ec. pose proof (pk_of_items t) as Ep.
   pose proof (idx_of_items t) as Ei. pose proof (fks_of_items t) as Ef.
+  pose proof (checks_of_items t) as Ek. rewrite (shown_checks_wf t Hwf) in Ek.
   unfold parse_table, print_table.
-  rewrite strip_app. rewrite p_qid_ok; [|reflexivity]. rewrite strip_app.
+  rewrite strip_app.
+  rewrite p_flag_if; [|reflexivity]. cbv beta iota. rewrite strip_app.
+  rewrite p_qid_ok; [|reflexivity]. rewrite strip_app.
   rewrite (sep_list_ok p_item (print_item (tcoll t)) kw_itemsep (wf_item (tcoll t)) (hd_in [44; 10])).
-  - rewrite strip_app. rewrite Ec, Ep, Ei, Ef. clear Ec Ep Ei Ef Hits Hne Hwf.
-    destruct t as [name cols pk idx fks ai tc cm]. cbn [tcomment tname tcols tpk tidx tfks tcoll tautoinc] in *.
+  - rewrite strip_app. rewrite Ec, Ep, Ei, Ef, Ek. clear Ec Ep Ei Ef Ek Hits Hne Hwf.
+    destruct t as [tmp name cols pk idx fks cks ai tc cm]. cbn [ttemp tcomment tname tcols tpk tidx tfks tchecks tcoll tautoinc] in *.
     destruct ai as [n|]; destruct cm as [|c0 cm].
     + rewrite <- ?app_assoc. rewrite strip_app. rewrite (p_digits_ok n _ Hai); [|reflexivity].
       rewrite strip_app. rewrite (span_app wordch _ _ (cs_name_word _)); [|reflexivity]. cbn [snd].
